@@ -1,16 +1,17 @@
 (* C17 -- RFC-4180 encodings are read back by (a) the csv_core DFA + ByteRecords model and (b) the reference parser.
 
    Main results (all closed under the global context):
-     dfa_decodes_encoding      run_dfa d (enc_file d recs) = Some (contents recs)
-                               for every dialect_ok d, every list of record_ok non-blank records, any per-field
-                               quoting and per-record terminator choice, provided the file does not start with a
-                               UTF-8 BOM (strip_bom rdr_init bs = bs; boolean form: no_bom bs = true)
-     rfc4180_decodes_encoding  rfc4180 d (enc_file d recs) = contents recs   (blank records included)
+     dfa_decodes_encoding      run_dfa d (enc_file d recs) = Some (contents (nonblank recs))
+                               for every dialect_ok d, every list of record_ok records (blank lines included: they
+                               are skipped), any per-field quoting and per-record terminator choice, provided the
+                               file does not start with a UTF-8 BOM (strip_bom rdr_init bs = bs; boolean form:
+                               no_bom bs = true)
+     rfc4180_decodes_encoding  rfc4180 d (enc_file d recs) = contents (nonblank recs)
      dfa_refines_rfc4180       well_formed d bs -> no BOM -> run_dfa d bs = Some (rfc4180 d bs)
-   ex_blank_needed / ex_bom_needed show that the two side conditions cannot be dropped.
+   ex_blank_skipped: a blank line is no record for either; ex_bom_needed: the BOM side condition cannot be dropped.
    Repaired reader (end-of-input signal, run_reader), optional last record without terminator:
-     reader_decodes_encoding        run_reader d (enc_file_open d recs last) = Some (contents_open recs last)
-     rfc4180_decodes_open_encoding  rfc4180 d (enc_file_open d recs last) = contents_open recs last
+     reader_decodes_encoding        run_reader d (enc_file_open d recs last) = Some (contents_open (nonblank recs) last)
+     rfc4180_decodes_open_encoding  rfc4180 d (enc_file_open d recs last) = contents_open (nonblank recs) last
      reader_refines_rfc4180         well_formed_open d bs -> no BOM -> run_reader d bs = Some (rfc4180 d bs)
    ex_open_run_dfa_loses: run_dfa (no end-of-input signal) loses the unterminated last record.
 
@@ -103,7 +104,25 @@ Section Dfa.
 
   Lemma dfa_crlf_lf : dfa_step d CRLF 10%N = (StartRecord, false).
   Proof. dfa_go. Qed.
+
+  (* a terminator byte at the start of a record (a blank line) is discarded *)
+  Lemma dfa_term_start : forall s c, (s = StartRecord \/ s = EndRecord) -> (c = 13%N \/ c = 10%N) ->
+    dfa_step d s c = (StartRecord, false).
+  Proof. intros s c [->| ->] [->| ->]; dfa_go. Qed.
 End Dfa.
+
+(* ------------------------------------------------------------------ blank records *)
+Lemma blank_inv : forall fs, blank fs = true -> fs = [(false, [])].
+Proof.
+  intros fs H. destruct fs as [|[q f] fs]; [discriminate H|].
+  destruct q; [discriminate H|]. destruct f; [|discriminate H]. destruct fs; [reflexivity|discriminate H].
+Qed.
+
+Lemma nonblank_cons_blank : forall r recs, blank (snd r) = true -> nonblank (r :: recs) = nonblank recs.
+Proof. intros r recs H. unfold nonblank. cbn [filter]. rewrite H. reflexivity. Qed.
+
+Lemma nonblank_cons_keep : forall r recs, blank (snd r) = false -> nonblank (r :: recs) = r :: nonblank recs.
+Proof. intros r recs H. unfold nonblank. cbn [filter]. rewrite H. reflexivity. Qed.
 
 (* ------------------------------------------------------------------ a view of the state without has_read *)
 Definition vstate := (nfa * nat * list N * list nat * list (nat * nat))%type.
@@ -301,29 +320,47 @@ Section Records.
 
   Definition rec_start (s : nfa) : Prop := s = StartRecord \/ s = EndRecord.
 
+  (* a blank line between records changes nothing but the DFA state *)
+  Lemma blank_run : forall crlf s o B E Bd, rec_start s ->
+    fold_left (vstep d) (enc_term crlf) (s, o, B, E, Bd) = (StartRecord, o, B, E, Bd).
+  Proof.
+    intros crlf s o B E Bd Hs. destruct crlf; unfold enc_term, CR, LF; cbn [fold_left].
+    - rewrite (vstep_skip d s 13%N StartRecord); [|apply dfa_term_start; auto|reflexivity].
+      rewrite (vstep_skip d StartRecord 10%N StartRecord); [|apply dfa_term_start; auto|reflexivity].
+      reflexivity.
+    - rewrite (vstep_skip d s 10%N StartRecord); [|apply dfa_term_start; auto|reflexivity].
+      reflexivity.
+  Qed.
+
   Lemma file_run : forall recs s B E Bd, rec_start s ->
-    forallb (fun r => record_ok d (snd r) && negb (blank (snd r))) recs = true ->
+    forallb (fun r => record_ok d (snd r)) recs = true ->
     exists s', rec_start s' /\
       fold_left (vstep d) (enc_file d recs) (s, 0, B, E, Bd)
-      = (s', 0, B ++ flat_buf (contents recs), E ++ flat_ends (contents recs),
-         Bd ++ flat_bounds (contents recs) (length E) (length B)).
+      = (s', 0, B ++ flat_buf (contents (nonblank recs)), E ++ flat_ends (contents (nonblank recs)),
+         Bd ++ flat_bounds (contents (nonblank recs)) (length E) (length B)).
   Proof.
     induction recs as [|[crlf fs] recs IH]; intros s B E Bd Hs Hok.
     - exists s. split; [assumption|]. cbn. rewrite !app_nil_r. reflexivity.
-    - cbn [forallb snd] in Hok. apply andb_prop in Hok. destruct Hok as [Hr Hrest].
-      apply andb_prop in Hr. destruct Hr as [Hrok Hnb]. apply negb_true_iff in Hnb.
-      unfold record_ok in Hrok. apply andb_prop in Hrok. destruct Hrok as [Hlen Hfs].
-      assert (Hne : fs <> []).
-      { intros ->. discriminate Hlen. }
-      cbn [enc_file]. rewrite app_assoc, fold_left_app.
-      rewrite record_run; [|assumption|assumption|destruct Hs as [->| ->]; unfold start3; auto|auto].
-      destruct (IH (if crlf then StartRecord else EndRecord)
-                   (B ++ concat (map snd fs)) (E ++ cum 0 (map snd fs))
-                   (Bd ++ [(length (E ++ cum 0 (map snd fs)) - 1, length (B ++ concat (map snd fs)))]))
-        as (s' & Hs' & Hrun); [destruct crlf; unfold rec_start; auto|assumption|].
-      exists s'. split; [assumption|]. rewrite Hrun.
-      unfold flat_buf, flat_ends. cbn [contents map snd concat flat_bounds].
-      rewrite !app_length, cum_length, map_length, <- !app_assoc. reflexivity.
+    - cbn [forallb snd] in Hok. apply andb_prop in Hok. destruct Hok as [Hrok Hrest].
+      destruct (blank fs) eqn:Hnb.
+      + (* a blank line *)
+        rewrite nonblank_cons_blank by exact Hnb.
+        apply blank_inv in Hnb. subst fs. cbn [enc_file enc_record enc_field app].
+        rewrite fold_left_app, blank_run by assumption.
+        apply IH; [left; reflexivity|assumption].
+      + rewrite nonblank_cons_keep by exact Hnb.
+        unfold record_ok in Hrok. apply andb_prop in Hrok. destruct Hrok as [Hlen Hfs].
+        assert (Hne : fs <> []).
+        { intros ->. discriminate Hlen. }
+        cbn [enc_file]. rewrite app_assoc, fold_left_app.
+        rewrite record_run; [|assumption|assumption|destruct Hs as [->| ->]; unfold start3; auto|auto].
+        destruct (IH (if crlf then StartRecord else EndRecord)
+                     (B ++ concat (map snd fs)) (E ++ cum 0 (map snd fs))
+                     (Bd ++ [(length (E ++ cum 0 (map snd fs)) - 1, length (B ++ concat (map snd fs)))]))
+          as (s' & Hs' & Hrun); [destruct crlf; unfold rec_start; auto|assumption|].
+        exists s'. split; [assumption|]. rewrite Hrun.
+        unfold flat_buf, flat_ends. cbn [contents map snd concat flat_bounds].
+        rewrite !app_length, cum_length, map_length, <- !app_assoc. reflexivity.
   Qed.
 End Records.
 
@@ -395,21 +432,23 @@ Proof.
 Qed.
 
 Lemma contents_nonempty : forall d recs,
-  forallb (fun r => record_ok d (snd r) && negb (blank (snd r))) recs = true ->
-  Forall (fun r => r <> []) (contents recs).
+  forallb (fun r => record_ok d (snd r)) recs = true ->
+  Forall (fun r => r <> []) (contents (nonblank recs)).
 Proof.
-  induction recs as [|[crlf fs] recs IH]; intros H; cbn [contents map]; constructor.
-  - cbn [forallb snd] in H. apply andb_prop in H. destruct H as [H _].
-    apply andb_prop in H. destruct H as [H _]. unfold record_ok in H.
-    apply andb_prop in H. destruct H as [H _]. cbn [snd]. destruct fs; [discriminate H|discriminate].
-  - apply IH. cbn [forallb] in H. apply andb_prop in H. tauto.
+  induction recs as [|[crlf fs] recs IH]; intros H; [constructor|].
+  cbn [forallb snd] in H. apply andb_prop in H. destruct H as [H Hrest].
+  destruct (blank fs) eqn:Hb.
+  - rewrite nonblank_cons_blank by exact Hb. apply IH. assumption.
+  - rewrite nonblank_cons_keep by exact Hb. cbn [contents map]. constructor; [|apply IH; assumption].
+    unfold record_ok in H. apply andb_prop in H. destruct H as [H _].
+    cbn [snd]. destruct fs; [discriminate H|discriminate].
 Qed.
 
 Theorem dfa_decodes_encoding : forall d recs,
   dialect_ok d = true ->
-  forallb (fun r => record_ok d (snd r) && negb (blank (snd r))) recs = true ->
+  forallb (fun r => record_ok d (snd r)) recs = true ->
   strip_bom rdr_init (enc_file d recs) = enc_file d recs ->
-  run_dfa d (enc_file d recs) = Some (contents recs).
+  run_dfa d (enc_file d recs) = Some (contents (nonblank recs)).
 Proof.
   intros d recs Hd Hok Hbom. unfold run_dfa.
   destruct recs as [|[crlf fs] recs]; [reflexivity|].
@@ -466,17 +505,18 @@ Section Rfc.
     - destruct (N.eqb_spec c (quote d)); [congruence|]. apply IH.
   Qed.
 
-  Lemma rfc_field : forall q f fs rest, field_ok d (q, f) = true ->
-    exists m, after_field m /\
+  (* the link between the mode and the field is kept: PStart only after a bare empty field *)
+  Lemma rfc_field_mode : forall q f fs rest, field_ok d (q, f) = true ->
+    exists m, after_field m /\ (m = PStart -> q = false /\ f = []) /\
       rfc_go d PStart [] fs false (enc_field d q f ++ rest) = rfc_go d m (rev f) fs false rest.
   Proof.
     intros q f fs rest Hok. destruct q; cbn [enc_field].
-    - exists PQuoteSeen. split; [unfold after_field; auto|].
+    - exists PQuoteSeen. split; [unfold after_field; auto|]. split; [discriminate|].
       cbn [app rfc_go]. rewrite N.eqb_refl. rewrite <- app_assoc, rfc_escape_in.
       cbn [app rfc_go]. rewrite N.eqb_refl, app_nil_r. reflexivity.
     - unfold field_ok in Hok. cbn [fst snd orb] in Hok. destruct f as [|c f].
-      + exists PStart. split; [unfold after_field; auto|reflexivity].
-      + exists PBare. split; [unfold after_field; auto|].
+      + exists PStart. split; [unfold after_field; auto|]. split; [auto|reflexivity].
+      + exists PBare. split; [unfold after_field; auto|]. split; [discriminate|].
         apply plain_cons in Hok. destruct Hok as [Pc Pf]. cbn [app].
         rewrite rfc_plain_byte; [|left; reflexivity|assumption].
         rewrite rfc_bare_in by assumption. reflexivity.
@@ -488,47 +528,79 @@ Section Rfc.
     intros m cur fs rest [->|[->| ->]]; cbn [rfc_go]; rfc_tests; reflexivity.
   Qed.
 
-  Lemma rfc_term : forall crlf m cur fs rest, after_field m ->
+  Lemma blank_line_false : forall m fs, (m <> PStart \/ fs <> []) -> blank_line m fs = false.
+  Proof.
+    intros m fs H. destruct m; try reflexivity. destruct fs; [|reflexivity].
+    exfalso. destruct H as [H|H]; congruence.
+  Qed.
+
+  (* a terminator after at least one byte of the line (or after a delimiter) ends a record *)
+  Lemma rfc_term : forall crlf m cur fs rest, after_field m -> (m <> PStart \/ fs <> []) ->
     rfc_go d m cur fs false (enc_term crlf ++ rest)
     = rev (rev cur :: fs) :: rfc_go d PStart [] [] false rest.
   Proof.
-    intros crlf m cur fs rest Hm. destruct crlf; unfold enc_term, CR, LF; cbn [app].
-    - destruct Hm as [->|[->| ->]]; cbn [rfc_go]; unfold CR, LF; rfc_tests; reflexivity.
-    - destruct Hm as [->|[->| ->]]; cbn [rfc_go]; unfold CR, LF; rfc_tests; reflexivity.
+    intros crlf m cur fs rest Hm Hnb. apply blank_line_false in Hnb.
+    destruct crlf; unfold enc_term, CR, LF; cbn [app].
+    - destruct Hm as [->|[->| ->]]; cbn [rfc_go]; unfold CR, LF; rfc_tests; rewrite ?Hnb; reflexivity.
+    - destruct Hm as [->|[->| ->]]; cbn [rfc_go]; unfold CR, LF; rfc_tests; rewrite ?Hnb; reflexivity.
+  Qed.
+
+  (* a terminator at the very start of a line: the blank line is skipped *)
+  Lemma rfc_term_blank : forall crlf rest,
+    rfc_go d PStart [] [] false (enc_term crlf ++ rest) = rfc_go d PStart [] [] false rest.
+  Proof.
+    intros crlf rest. destruct crlf; unfold enc_term, CR, LF; cbn [app rfc_go blank_line]; unfold CR, LF;
+      rfc_tests; reflexivity.
   Qed.
 
   Lemma rfc_record : forall fs crlf acc rest, fs <> [] -> forallb (field_ok d) fs = true ->
+    (acc <> [] \/ blank fs = false) ->
     rfc_go d PStart [] acc false (enc_record d fs ++ enc_term crlf ++ rest)
     = rev (rev (map snd fs) ++ acc) :: rfc_go d PStart [] [] false rest.
   Proof.
-    induction fs as [|[q f] fs IH]; intros crlf acc rest Hne Hok; [congruence|].
+    induction fs as [|[q f] fs IH]; intros crlf acc rest Hne Hok Hb; [congruence|].
     cbn [forallb] in Hok. apply andb_prop in Hok. destruct Hok as [Hf Hfs].
     destruct fs as [|x fs].
     - rewrite enc_record_single.
-      destruct (rfc_field q f acc (enc_term crlf ++ rest) Hf) as (m & Hm & Hrun).
-      rewrite Hrun, rfc_term by assumption. rewrite rev_involutive. reflexivity.
+      destruct (rfc_field_mode q f acc (enc_term crlf ++ rest) Hf) as (m & Hm & Hmf & Hrun).
+      rewrite Hrun, rfc_term; [rewrite rev_involutive; reflexivity|assumption|].
+      destruct Hb as [Hb|Hb]; [auto|]. left. intros ->.
+      destruct (Hmf eq_refl) as [-> ->]. discriminate Hb.
     - rewrite enc_record_cons2, <- app_assoc.
-      destruct (rfc_field q f acc ((delim d :: enc_record d (x :: fs)) ++ enc_term crlf ++ rest) Hf)
-        as (m & Hm & Hrun).
+      destruct (rfc_field_mode q f acc ((delim d :: enc_record d (x :: fs)) ++ enc_term crlf ++ rest) Hf)
+        as (m & Hm & _ & Hrun).
       rewrite Hrun. cbn [app]. rewrite rfc_delim by assumption. rewrite rev_involutive.
-      rewrite IH; [|discriminate|assumption].
+      rewrite IH; [|discriminate|assumption|left; discriminate].
       cbn [map snd rev]. rewrite <- !app_assoc. reflexivity.
   Qed.
 
-  Lemma rfc_file : forall recs, forallb (fun r => record_ok d (snd r)) recs = true ->
-    rfc_go d PStart [] [] false (enc_file d recs) = contents recs.
+  Lemma rfc_file_app : forall recs rest, forallb (fun r => record_ok d (snd r)) recs = true ->
+    rfc_go d PStart [] [] false (enc_file d recs ++ rest)
+    = contents (nonblank recs) ++ rfc_go d PStart [] [] false rest.
   Proof.
-    induction recs as [|[crlf fs] recs IH]; intros Hok; [reflexivity|].
+    induction recs as [|[crlf fs] recs IH]; intros rest Hok; [reflexivity|].
     cbn [forallb snd] in Hok. apply andb_prop in Hok. destruct Hok as [Hr Hrest].
-    unfold record_ok in Hr. apply andb_prop in Hr. destruct Hr as [Hlen Hfs].
-    cbn [enc_file]. rewrite rfc_record; [|intros ->; discriminate Hlen|assumption].
-    rewrite IH by assumption. cbn [contents map snd]. rewrite app_nil_r, rev_involutive. reflexivity.
+    destruct (blank fs) eqn:Hb.
+    - rewrite nonblank_cons_blank by exact Hb. apply blank_inv in Hb. subst fs.
+      cbn [enc_file enc_record enc_field app]. rewrite <- app_assoc, rfc_term_blank. apply IH. assumption.
+    - rewrite nonblank_cons_keep by exact Hb.
+      unfold record_ok in Hr. apply andb_prop in Hr. destruct Hr as [Hlen Hfs].
+      cbn [enc_file]. rewrite <- !app_assoc.
+      rewrite rfc_record; [|intros ->; discriminate Hlen|assumption|auto].
+      rewrite IH by assumption. cbn [contents map snd app]. rewrite app_nil_r, rev_involutive. reflexivity.
+  Qed.
+
+  Lemma rfc_file : forall recs, forallb (fun r => record_ok d (snd r)) recs = true ->
+    rfc_go d PStart [] [] false (enc_file d recs) = contents (nonblank recs).
+  Proof.
+    intros recs Hok. rewrite <- (app_nil_r (enc_file d recs)), rfc_file_app by assumption.
+    cbn [rfc_go]. apply app_nil_r.
   Qed.
 End Rfc.
 
 Theorem rfc4180_decodes_encoding : forall d recs, dialect_ok d = true ->
   forallb (fun r => record_ok d (snd r)) recs = true ->
-  rfc4180 d (enc_file d recs) = contents recs.
+  rfc4180 d (enc_file d recs) = contents (nonblank recs).
 Proof.
   intros d recs Hd Hok. unfold rfc4180. apply rfc_file; [apply dialect_ok_facts; assumption|assumption].
 Qed.
@@ -546,18 +618,9 @@ Proof.
          end.
 Qed.
 
+(* the bytes are an RFC-4180 encoding of some records, every record terminated; blank lines allowed *)
 Definition well_formed (d : dialect) (bs : list N) : Prop :=
-  exists recs,
-    forallb (fun r => record_ok d (snd r) && negb (blank (snd r))) recs = true /\ bs = enc_file d recs.
-
-Lemma ok_weaken : forall d (recs : list (bool * list (bool * list N))),
-  forallb (fun r => record_ok d (snd r) && negb (blank (snd r))) recs = true ->
-  forallb (fun r => record_ok d (snd r)) recs = true.
-Proof.
-  induction recs as [|r recs IH]; intros H; [reflexivity|].
-  cbn [forallb] in *. apply andb_prop in H. destruct H as [H1 H2].
-  apply andb_prop in H1. destruct H1 as [H1 _]. rewrite H1, IH by assumption. reflexivity.
-Qed.
+  exists recs, forallb (fun r => record_ok d (snd r)) recs = true /\ bs = enc_file d recs.
 
 Theorem dfa_refines_rfc4180 : forall d bs,
   dialect_ok d = true -> well_formed d bs -> strip_bom rdr_init bs = bs ->
@@ -565,7 +628,7 @@ Theorem dfa_refines_rfc4180 : forall d bs,
 Proof.
   intros d bs Hd (recs & Hok & ->) Hbom.
   rewrite dfa_decodes_encoding by assumption.
-  rewrite rfc4180_decodes_encoding; [reflexivity|assumption|apply ok_weaken; assumption].
+  rewrite rfc4180_decodes_encoding by assumption. reflexivity.
 Qed.
 
 Corollary dfa_refines_rfc4180_no_bom : forall d bs,
@@ -574,12 +637,14 @@ Corollary dfa_refines_rfc4180_no_bom : forall d bs,
 Proof. intros d bs Hd Hwf Hb. apply dfa_refines_rfc4180; auto using no_bom_strip. Qed.
 
 (* the hypotheses are satisfiable: comma / double quote; bare, quoted (with quote, delimiter and LF inside),
-   bare empty first / last fields, a quoted empty single field, both terminators *)
+   bare empty first / last fields, a quoted empty single field, two blank lines, both terminators *)
 Definition ex_d : dialect := {| delim := 44%N; quote := 34%N |}.
 Definition ex_recs : list (bool * list (bool * list N)) :=
   [ (true,  [(false, [97%N]); (true, [34%N; 44%N; 10%N])]);
     (false, [(false, []); (true, [])]);
+    (true,  [(false, [])]);
     (false, [(true, [])]);
+    (false, [(false, [])]);
     (true,  [(false, [120%N]); (true, [121%N]); (false, [])]) ].
 
 Example ex_hyps :
@@ -597,12 +662,14 @@ Example ex_run :
      = [ [[97%N]; [34%N; 44%N; 10%N]]; [[]; []]; [[]]; [[120%N]; [121%N]; []] ].
 Proof. split; vm_compute; reflexivity. Qed.
 
-(* the side conditions of (1) are needed: a blank record is skipped by csv_core, a leading BOM is stripped *)
-Example ex_blank_needed :
+(* a blank line is no record, for csv_core and for the reference parser; a quoted empty field on its own is one *)
+Example ex_blank_skipped :
   run_dfa ex_d (enc_file ex_d [(false, [(false, [])])]) = Some []
-  /\ rfc4180 ex_d (enc_file ex_d [(false, [(false, [])])]) = [[[]]].
-Proof. split; vm_compute; reflexivity. Qed.
+  /\ rfc4180 ex_d (enc_file ex_d [(false, [(false, [])])]) = []
+  /\ rfc4180 ex_d (enc_file ex_d [(false, [(true, [])])]) = [[[]]].
+Proof. repeat split; vm_compute; reflexivity. Qed.
 
+(* the side condition of (1) is needed: a leading BOM is stripped *)
 Example ex_bom_needed :
   run_dfa ex_d (enc_file ex_d [(false, [(false, [239%N; 187%N; 191%N; 97%N])])]) = Some [[[97%N]]]
   /\ rfc4180 ex_d (enc_file ex_d [(false, [(false, [239%N; 187%N; 191%N; 97%N])])])
@@ -622,8 +689,8 @@ Example ex_open_checks :
   /\ run_reader ex_d (enc_file_open ex_d [] (Some [(false, [97%N]); (false, [])])) = Some [[[97%N]; []]]
   /\ run_reader ex_d (enc_file_open ex_d [] (Some [(true, [])])) = Some [[[]]]
   /\ run_reader ex_d (enc_file_open ex_d ex_recs (Some [(false, []); (true, [34%N]); (false, [])]))
-     = Some (contents_open ex_recs (Some [(false, []); (true, [34%N]); (false, [])]))
-  /\ run_reader ex_d (enc_file_open ex_d ex_recs None) = Some (contents ex_recs).
+     = Some (contents_open (nonblank ex_recs) (Some [(false, []); (true, [34%N]); (false, [])]))
+  /\ run_reader ex_d (enc_file_open ex_d ex_recs None) = Some (contents (nonblank ex_recs)).
 Proof. repeat split; vm_compute; reflexivity. Qed.
 
 Definition vend (v : vstate) : vstate :=
@@ -725,10 +792,10 @@ Proof. intros s [->|[->| ->]]; reflexivity. Qed.
 
 Theorem reader_decodes_encoding : forall d recs last,
   dialect_ok d = true ->
-  forallb (fun r => record_ok d (snd r) && negb (blank (snd r))) recs = true ->
+  forallb (fun r => record_ok d (snd r)) recs = true ->
   match last with Some fs => record_ok d fs && negb (blank fs) = true | None => True end ->
   strip_bom rdr_init (enc_file_open d recs last) = enc_file_open d recs last ->
-  run_reader d (enc_file_open d recs last) = Some (contents_open recs last).
+  run_reader d (enc_file_open d recs last) = Some (contents_open (nonblank recs) last).
 Proof.
   intros d recs last Hd Hok Hlast Hbom.
   pose proof (dialect_ok_facts d Hd) as D.
@@ -744,8 +811,8 @@ Proof.
     2:{ unfold enc_file_open. intros H. apply app_eq_nil in H. destruct H as [_ H].
         revert H. apply enc_record_nonempty; assumption. }
     unfold enc_file_open, contents_open. rewrite fold_left_app, Hrun1.
-    destruct (open_record_run d D fs s1 0 (flat_buf (contents recs)) (flat_ends (contents recs))
-                (flat_bounds (contents recs) 0 0)) as (s2 & o2 & E2 & Hs2 & Hrun2 & HE2);
+    destruct (open_record_run d D fs s1 0 (flat_buf (contents (nonblank recs))) (flat_ends (contents (nonblank recs)))
+                (flat_bounds (contents (nonblank recs)) 0 0)) as (s2 & o2 & E2 & Hs2 & Hrun2 & HE2);
       [assumption|assumption|destruct Hs1 as [->| ->]; unfold start3; auto|auto|].
     rewrite Hrun2. unfold vend.
     assert (Hrf : record_final s2 = false) by (destruct Hs2 as [->|[->| ->]]; reflexivity).
@@ -772,35 +839,6 @@ Section RfcOpen.
   Variable d : dialect.
   Hypothesis D : dfacts d.
 
-  Lemma rfc_file_app : forall recs rest, forallb (fun r => record_ok d (snd r)) recs = true ->
-    rfc_go d PStart [] [] false (enc_file d recs ++ rest)
-    = contents recs ++ rfc_go d PStart [] [] false rest.
-  Proof.
-    induction recs as [|[crlf fs] recs IH]; intros rest Hok; [reflexivity|].
-    cbn [forallb snd] in Hok. apply andb_prop in Hok. destruct Hok as [Hr Hrest].
-    unfold record_ok in Hr. apply andb_prop in Hr. destruct Hr as [Hlen Hfs].
-    cbn [enc_file]. rewrite <- !app_assoc.
-    rewrite (rfc_record d D); [|intros ->; discriminate Hlen|assumption].
-    rewrite IH by assumption. cbn [contents map snd app]. rewrite app_nil_r, rev_involutive. reflexivity.
-  Qed.
-
-  (* rfc_field with the link between the mode and the field kept *)
-  Lemma rfc_field_mode : forall q f fs rest, field_ok d (q, f) = true ->
-    exists m, after_field m /\ (m = PStart -> q = false /\ f = []) /\
-      rfc_go d PStart [] fs false (enc_field d q f ++ rest) = rfc_go d m (rev f) fs false rest.
-  Proof.
-    intros q f fs rest Hok. destruct q; cbn [enc_field].
-    - exists PQuoteSeen. split; [unfold after_field; auto|]. split; [discriminate|].
-      cbn [app rfc_go]. rewrite N.eqb_refl. rewrite <- app_assoc, rfc_escape_in.
-      cbn [app rfc_go]. rewrite N.eqb_refl, app_nil_r. reflexivity.
-    - unfold field_ok in Hok. cbn [fst snd orb] in Hok. destruct f as [|c f].
-      + exists PStart. split; [unfold after_field; auto|]. split; [auto|reflexivity].
-      + exists PBare. split; [unfold after_field; auto|]. split; [discriminate|].
-        apply (plain_cons d) in Hok. destruct Hok as [Pc Pf]. cbn [app].
-        rewrite rfc_plain_byte; [|left; reflexivity|assumption].
-        rewrite rfc_bare_in by assumption. reflexivity.
-  Qed.
-
   Lemma rfc_eof : forall m cur acc, (m <> PStart \/ acc <> []) ->
     rfc_go d m cur acc false [] = [rev (rev cur :: acc)].
   Proof.
@@ -817,13 +855,13 @@ Section RfcOpen.
     cbn [forallb] in Hok. apply andb_prop in Hok. destruct Hok as [Hf Hfs].
     destruct fs as [|x fs].
     - rewrite enc_record_single.
-      destruct (rfc_field_mode q f acc [] Hf) as (m & Hm & Hmf & Hrun).
+      destruct (rfc_field_mode d D q f acc [] Hf) as (m & Hm & Hmf & Hrun).
       rewrite app_nil_r in Hrun. rewrite Hrun.
       rewrite rfc_eof; [rewrite rev_involutive; reflexivity|].
       destruct Hb as [Hb|Hb]; [auto|]. left. intros ->.
       destruct (Hmf eq_refl) as [-> ->]. discriminate Hb.
     - rewrite enc_record_cons2.
-      destruct (rfc_field_mode q f acc (delim d :: enc_record d (x :: fs)) Hf) as (m & Hm & _ & Hrun).
+      destruct (rfc_field_mode d D q f acc (delim d :: enc_record d (x :: fs)) Hf) as (m & Hm & _ & Hrun).
       rewrite Hrun. rewrite (rfc_delim d D) by assumption. rewrite rev_involutive.
       rewrite IH; [|discriminate|assumption|left; discriminate].
       cbn [map snd rev]. rewrite <- !app_assoc. reflexivity.
@@ -834,7 +872,7 @@ Theorem rfc4180_decodes_open_encoding : forall d recs last,
   dialect_ok d = true ->
   forallb (fun r => record_ok d (snd r)) recs = true ->
   match last with Some fs => record_ok d fs && negb (blank fs) = true | None => True end ->
-  rfc4180 d (enc_file_open d recs last) = contents_open recs last.
+  rfc4180 d (enc_file_open d recs last) = contents_open (nonblank recs) last.
 Proof.
   intros d recs last Hd Hok Hlast. pose proof (dialect_ok_facts d Hd) as D.
   unfold rfc4180, enc_file_open, contents_open. rewrite (rfc_file_app d D) by assumption.
@@ -846,9 +884,10 @@ Proof.
 Qed.
 
 (* ------------------------------------------------------------------ (3') refinement, repaired reader *)
+(* an RFC-4180 encoding (blank lines allowed) whose last record may lack its terminator *)
 Definition well_formed_open (d : dialect) (bs : list N) : Prop :=
   exists recs last,
-    forallb (fun r => record_ok d (snd r) && negb (blank (snd r))) recs = true
+    forallb (fun r => record_ok d (snd r)) recs = true
     /\ match last with Some fs => record_ok d fs && negb (blank fs) = true | None => True end
     /\ bs = enc_file_open d recs last.
 
@@ -858,7 +897,7 @@ Theorem reader_refines_rfc4180 : forall d bs,
 Proof.
   intros d bs Hd (recs & last & Hok & Hlast & ->) Hbom.
   rewrite reader_decodes_encoding by assumption.
-  rewrite rfc4180_decodes_open_encoding; [reflexivity|assumption|apply ok_weaken; assumption|assumption].
+  rewrite rfc4180_decodes_open_encoding by assumption. reflexivity.
 Qed.
 
 Corollary reader_refines_rfc4180_no_bom : forall d bs,
